@@ -87,6 +87,22 @@ PROPS["C15"] = dict(
     assumptions=CORE_ASSUME, not_covered=CORE_NOT_COVERED + ["try_add_new_stack_rule: contract assumed (bounded harness planned)", "parse_attempts_error help text (format!, BTreeMap)"],
 )
 
+PROPS["C10"] = dict(
+    title="Line/column arithmetic and error rendering are correct for all text",
+    verus_units=[("lines", {}, "")],
+    kani=[], searcher=None,
+    design_ref="DESIGN.md section 5, C10",
+    technique="contract-based deductive verification (Verus) of the index arithmetic over vstd's UTF-8 theory; bounded Kani harnesses (planned) for the iterator-chain functions",
+    level_text="Unbounded proof: LineIndex::new records exactly the offsets after every newline character (loop invariant over chars()); LineIndex::line_col returns (1 + newlines before the offset, 1 + characters since the last newline) for every boundary offset inside the indexed prefix; Span::new / Position::new succeed exactly on ordered boundary offsets; merge_spans; line_of and LinesSpan::next yield exactly the line [ls, le) containing the cursor and advance to the start of the next line - the last two given the assumed contracts of find_line_start / find_line_end.",
+    level_note="Assumed: find_line_start / find_line_end (char_indices/rev/skip_while/find chains), std partition_point and chars().count() contracts, str range indexing helper. Not covered yet: Position::line_col (Peekable), Error::new_from_pos/new_from_span and Display (format!, String building).",
+    assumptions=["Verus + Z3 + vstd (UTF-8 theory); extractor with rewrites R3,R5,R6,R11,R16,R17,R23",
+                 "std contracts on trusted helpers: partition_point (on a sorted Vec<usize>), chars().count(), str range indexing, str::get -> SliceIndex::get, core::cmp::min/max on usize",
+                 "ASSUMED contracts: Position::find_line_start == ls, Position::find_line_end == le (byte-level line specs)"],
+    not_covered=["Position::line_col (chars().peekable()): not in the Verus subset; bounded harness planned",
+                 "Error::new_from_pos / new_from_span / Display rendering: format!/String code, not covered",
+                 "Span::get(range: impl RangeBounds), Lines::next (Option::map with a closure)"],
+)
+
 PROPS["C16"] = dict(
     title="Unicode property rules are consistent for every code point",
     verus_units=[], kani=["unicode"], searcher="unicode",
@@ -107,7 +123,6 @@ NOT_APPLICABLE = {
     "C06": "termination of all accepted grammars is a metatheorem about the validator over a least-fixpoint semantics; only a behaviour-mirroring spec would verify, which would encode rather than decide the property",
     "C07": "round trip through the generated meta parser and a 370-line closure-based AST builder; outside both tools' reach",
     "C09": "totality of the whole front end on arbitrary text; closure/iterator/format-heavy code, CBMC cannot unwind the meta parser on symbolic input",
-    "C10": "claimed in DESIGN.md; check not built yet in this commit",
     "C13": "Pratt parsing loop is generic over Peekable<I> and Box<dyn FnMut>; not in the Verus subset, Kani timed out at sequence length 3",
     "C14": "equality of a checked-in generated file with regenerated output: regeneration/differential check, not a contract",
     "C17": "thread-interleaving property; Kani has no threads, Verus would verify a rewritten model",
